@@ -131,3 +131,28 @@ func (ld *Loader) pkgByName(name string) *types.Package {
 	}
 	return ld.byName[name]
 }
+
+// pkgByNameWith finds a package with the given name that declares sym.
+func (ld *Loader) pkgByNameWith(name, sym string) *types.Package {
+	ld.pkgByName(name)
+	seen := map[*types.Package]bool{}
+	var res *types.Package
+	var walk func(p *types.Package)
+	walk = func(p *types.Package) {
+		if seen[p] || res != nil {
+			return
+		}
+		seen[p] = true
+		if p.Name() == name && p.Scope().Lookup(sym) != nil {
+			res = p
+			return
+		}
+		for _, i := range p.Imports() {
+			walk(i)
+		}
+	}
+	for _, p := range ld.pkgs {
+		walk(p.Types)
+	}
+	return res
+}
